@@ -124,15 +124,45 @@ Theorem C04_control_frames_are_bytes :
     let c := conn_of d in
     let x := sent_of h in
     match c_control c with
-    | None => c_taken c = []
+    | None => c_taken c = [] /\ (forall z, c_cause c = Some z -> ctl_cause z = false)
     | Some (id, _) =>
         exists rest obs,
+          In id (sn_ann x) /\
           uni_header (sn_flat x id) = Some (ST_CONTROL, None, rest) /\
           toks_of obs = map TFrame (c_taken c) /\
           refines obs (frame_outcome settings_verdict rest (sn_end x id)) (sn_end x id) (settled (c_trace c)) /\
           (forall z, c_cause c = Some z -> cause_last z obs)
     end.
 Proof. exact control_stream_bytes. Qed.
+
+(* ---- T2 (and T1): every connection error is one the specification allows for what the peer sent ----
+   For every well-formed history (no stream id announced twice; chunks non-empty; streams only ever FIN'd or
+   reset), either role, grease on or off, any credit and write-budget script: if the driver returns an error, its
+   code is in `allowed_errors` of the byte-level specification Spec/UniStreams.v, evaluated on the streams the peer
+   announced, each with exactly the bytes it delivered and the way it ended (`sdescs (sent_of h)`).  The
+   SETTINGS-contents rule used inside Spec/Frames.v's segmentation is C02's `settings_verdict` (the frame-layer
+   model's verdict, which C13 / C02 tie to RFC 9114 7.2.4); premise `d_res d <> RIndet` as in T3(a).
+   Not claimed: that the code is that of the FIRST violation in processing order when several streams violate. *)
+Theorem C04_error_is_allowed :
+  forall role grease wt credit dflt h e, whist_ok h ->
+    let d := run_history h (new_drv role grease wt credit dflt) in
+    d_res d <> RIndet -> d_res d = RErr e ->
+    In e (allowed_errors_with settings_verdict (srole_of role) (sdescs (sent_of h))).
+Proof. exact errors_allowed. Qed.
+
+(* T1: when the specification allows no error for what the peer sent, the driver never returns one - for every
+   arrival order, chunking and credit / back-pressure pattern *)
+Theorem C04_no_error_unless_allowed :
+  forall role grease wt credit dflt h, whist_ok h ->
+    let d := run_history h (new_drv role grease wt credit dflt) in
+    d_res d <> RIndet ->
+    allowed_errors_with settings_verdict (srole_of role) (sdescs (sent_of h)) = [] ->
+    forall e, d_res d <> RErr e.
+Proof.
+  intros role grease wt credit dflt h Hh d Hni Hnone e He.
+  pose proof (errors_allowed role grease wt credit dflt h e Hh Hni He) as Hin. fold d in Hin.
+  rewrite Hnone in Hin. destruct Hin.
+Qed.
 
 (* ---- T1 / T2, the part about stream types, against the bytes ----
    For every history in which no stream id is announced twice: every STOP_SENDING h3 issued is
@@ -191,6 +221,11 @@ Proof.
   - repeat constructor; try discriminate; vm_compute; intuition discriminate.
   - vm_compute. repeat constructor; intros [].
 Qed.
+(* ... and nothing is allowed to go wrong for it: SETTINGS then GOAWAY(0) on a control stream that stays open *)
+Example C04_nothing_allowed_inhabited :
+  allowed_errors_with settings_verdict SClient
+    (sdescs (sent_of [EPoll; ENewUni 3; EArrive 3 (Chunk [0; 4; 2; 51; 1; 7; 1; 0]); EPoll])) = [].
+Proof. vm_compute. reflexivity. Qed.
 (* server: a second control stream *)
 Example C04_second_control_inhabited :
   d_res (run_history [EPoll; ENewUni 2; EArrive 2 (Chunk [0; 4; 0]); ENewUni 6; EArrive 6 (Chunk [0]); EPoll]
@@ -205,5 +240,7 @@ Print Assumptions C04_control_automaton.
 Print Assumptions C04_exactly_once_partial.
 Print Assumptions C04_frame_survives_grease.
 Print Assumptions C04_control_frames_are_bytes.
+Print Assumptions C04_error_is_allowed.
+Print Assumptions C04_no_error_unless_allowed.
 Print Assumptions C04_stream_types.
 Print Assumptions C04_pending_streams_settled.
